@@ -261,6 +261,35 @@ def unobserved_slice(ctx, tier, rng, entries=None, quick_n=500, thorough_n=12000
             judge_unobserved(ctx, sc, e)
 
 
+def default_limits_slice(ctx, run_one, entries=None):
+    """Shared workload: every entry point, built WITHOUT limits (no deadline_s, max_attempts, max_unknown_attempts passed): the
+    documented defaults - 60 s, 6 attempts, 2 retries after UNKNOWN failures - are the configuration the run is judged against.
+    Long enough failure scripts to reach each of them."""
+    shapes = {
+        "unknown": [["exc", "UNKNOWN", None]] * 8,
+        "transient": [["exc", "TRANSIENT", None]] * 8,
+        "results": [["res", "SERVER_ERROR", None]] * 8,
+        "slow": [["exc", "TRANSIENT", None]] * 8,
+    }
+    k = 0
+    for e in entries or rig.ENTRIES:
+        for name, outs in shapes.items():
+            for via in ("direct", "config", "attrs"):
+                k += 1
+                if k % ctx.nshards != ctx.shard:
+                    continue
+                if via != "direct" and e.lstrip("a").startswith("deco"):
+                    continue
+                cfg = gen.mk_cfg(max_attempts=6, deadline_s=60.0, max_unknown=2)
+                cfg["omit_limits"] = True
+                call = gen.mk_call([list(o) for o in outs], strat_values=[0.0 if name != "slow" else 16.0] * 8, durations=[0.0 if name != "slow" else 1.0] * 8)
+                sc = {"cfg": cfg, "place": gen.default_place(), "bs_kind": "sync", "sleeper_kind": "async", "timeline": False, "poll": False, "calls": [call], "fault": None,
+                      "via_config": via == "config", "via_attrs": via == "attrs"}
+                run_one(sc, e)
+                ctx.inc("default_limit_runs")
+                ctx.cnt["default_limit_runs:" + name] += 1
+
+
 def crossing_floors(ctx, floors, n=60):
     for w_ in ("handler", "before_sleep", "record_failure"):
         floors["crossing_scenarios:" + w_] = (ctx.cnt["crossing_scenarios:" + w_], n)
